@@ -9,6 +9,7 @@ import (
 
 func init() {
 	vpRegister("vpH_C19_fault", vpH_C19_fault)
+	vpRegister("vpH_C19_bigdv", vpH_C19_bigdv)
 }
 
 var vpFaultOps = []string{"Dictionary(a)", "Dictionary(_id)", "PostingsList+iterate", "VisitStoredFields", "DocumentValues", "DocsMatchingTerms", "CollectionStats", "PostingsList(location-free term)+iterate with locations", "PostingsList(with deletions)+iterate"}
@@ -135,4 +136,56 @@ func vpH_C19_fault() {
 		vpFaultOp(k, seg, file)
 	}
 	vpReach("C19 fault end")
+}
+
+// C19 for a doc-value reader that is kept across calls and chunks: a segment
+// of 1030 documents (two 1024-document doc-value chunks; long values in the
+// first, short ones in the second), one reader warmed on one chunk, the storage
+// starts failing at the k-th read (symbolic) of a visit in the other chunk, and
+// the reader is used again for every document of the chunk it had loaded:
+// each call returns an error or a result, none panics.
+func vpH_C19_bigdv() {
+	var docs []*vpDoc
+	for d := 0; d < 1030; d++ {
+		// six documents with values in each chunk: the reader's header array is
+		// reused in place when it moves between the chunks
+		switch {
+		case d < 6:
+			docs = append(docs, &vpDoc{fields: []*vpField{{name: "b", dv: true, length: 1, terms: []*vpTerm{{term: []byte("a-much-longer-value"), freq: 1}}}}})
+		case d >= 1024:
+			docs = append(docs, &vpDoc{fields: []*vpField{{name: "b", dv: true, length: 1, terms: []*vpTerm{{term: []byte("a"), freq: 1}}}}})
+		default:
+			docs = append(docs, &vpDoc{})
+		}
+	}
+	seg, file := vpLoadFile(vpPersist(vpBuild(docs, 1025)))
+	r, err := seg.DocumentValueReader([]string{"b"})
+	vpMust(err, "DocumentValueReader")
+	warm, other, again := uint64(1026), uint64(4), []uint64{1024, 1025, 1026, 1027, 1029}
+	if vpChoice("direction", 2) == 1 {
+		warm, other, again = 4, 1026, []uint64{0, 1, 2, 3, 5}
+	}
+	visit := func(n uint64) (int, error) {
+		got := 0
+		err := r.VisitDocumentValues(n, func(string, []byte) { got++ })
+		return got, err
+	}
+	// (the reader's per-field state is rebuilt on its second call: warm it twice)
+	for i := 0; i < 2; i++ {
+		got, err := visit(warm)
+		vpAssert(err == nil && got == 1, "fault-free visit delivers the document's value")
+	}
+	file.failFrom = file.reads + int(vpRange("k", 0, 13))
+	mark := file.reads
+	got, err := visit(other)
+	if file.failFrom < file.reads {
+		vpReach("C19 storage failed during a call")
+		vpAssert(err != nil || got == 0, "failed storage read is reported or yields an empty result: VisitDocumentValues")
+	}
+	_ = mark
+	for _, n := range again {
+		// every later call returns (an error or a result): no panic, no hang
+		_, _ = visit(n)
+	}
+	vpReach("C19 bigdv end")
 }
